@@ -50,7 +50,8 @@ def run(tier, seed, repo):
     evals = 0
     for o in obs:
         if o["status"] != "proved":
-            which = "lost_update_sqlite" if "Sqlite" in o["id"] else "lost_update_memory"
+            kind_ = "two_edits" if "guarded-read-before-write" in o["id"] else "lost_update"
+            which = f"{kind_}_sqlite" if "Sqlite" in o["id"] else f"{kind_}_memory"
             env = dict(os.environ, VERIF_REPO=repo)
             p = subprocess.run([py, scen, which], capture_output=True, text=True, env=env, timeout=120)
             evals += 1
